@@ -209,6 +209,42 @@ def check(ctx: Ctx) -> list[RuleResult]:
                         r4.ok({"write": f"{g.short}: {norm(n)[:70]}"})
                     else:
                         r4.fail(f"{g.short}:{norm(n)[:50]}", g.loc(n), "ProtocolContext._fut is assigned without _cmd and _qos: the future could be resolved while another command is the one in flight")
+    # the sender's timeout handler decides "is my command the one in flight?" before it expires the state machine: that test may
+    # only read fields that are reset when a command completes - a field that keeps pointing at a finished command (set_state clears
+    # _cmd/_qos on going idle, not _fut) makes a sender whose command has just completed expire a machine that is already idle
+    from .common import expand as _expand7
+    from .common import private_parts as _pp7
+
+    sc7 = repo.func(f"{F}.ProtocolContext.send_cmd")
+    ss7 = repo.func(f"{F}.ProtocolContext.set_state")
+    cleared: set[str] = set()
+    for g7, _m in [(ss7, {})] + list(_pp7(ctx, ss7)):
+        for n in own_nodes(g7.node):
+            if isinstance(n, ast.Assign) and isinstance(n.value, ast.Constant) and n.value.value is None:
+                for t in n.targets:
+                    for x in ast.walk(t):
+                        if isinstance(x, ast.Attribute) and isinstance(x.ctx, ast.Store) and isinstance(x.value, ast.Name) and x.value.id == "self":
+                            cleared.add(f"self.{x.attr}")
+    exp_calls = [c for c in own_nodes(sc7.node) if isinstance(c, ast.Call) and isinstance(c.func, ast.Attribute) and c.func.attr == "set_state" and any(k.arg == "expired" for k in c.keywords)]
+    if not exp_calls:
+        raise AnalysisError("send_cmd: the `set_state(IsInIdle, expired=True)` of the timeout handler was not found")
+    for c in exp_calls:
+        r4.instances += 1
+        r4.nontrivial += 1
+        st = c
+        while not isinstance(st, ast.stmt):
+            st = st.parent  # type: ignore[attr-defined]
+        guard = getattr(st, "parent", None)
+        if not isinstance(guard, ast.If):
+            r4.fail(f"{sc7.short}:expire-unguarded", sc7.loc(c), "the timeout handler expires the state machine without testing that this sender's command is the one in flight: a command that timed out while still queued would fail the command that is in flight")
+            continue
+        t = _expand7(sc7.node, guard.test, pure_only=False)
+        reads = {norm(x) for x in ast.walk(t) if isinstance(x, ast.Attribute) and isinstance(x.value, ast.Name) and x.value.id == "self"}
+        stale = sorted(r for r in reads if r not in cleared)
+        if reads and not stale:
+            r4.ok({"in-flight test": norm(guard.test)[:60], "reads": sorted(reads), "reset_on_completion": True})
+        else:
+            r4.fail(f"{sc7.short}:in-flight-test-on-stale-field", sc7.loc(guard), f"the timeout handler's in-flight test `{norm(guard.test)[:60]}` reads {stale or 'no field of the context'}, which set_state() does not reset when a command completes (it resets {sorted(cleared)}): a sender whose echo/reply was processed in the same loop iteration as its timeout still looks in flight and expires an idle machine (AssertionError/InvalidStateError instead of a protocol error)")
     out.append(r4)
 
     # ---- R5 ---------------------------------------------------------------------------
